@@ -760,7 +760,10 @@ class CFG:
             self.inlined.append(t.qualname)
         saved_loops, self._loops = self._loops, []
         try:
-            b = self._block(body + [ast.Return(value=None, lineno=s.lineno, col_offset=0)], ctxs)
+            b = self._block(body, ctxs)
+            if b.entry is None or b.outs:
+                # the helper can fall off its end: that is `return None` of the caller
+                b = self._seq([b, self._stmt_plain(ast.Return(value=None, lineno=s.lineno, col_offset=0), ctxs)])
         finally:
             self._loops = saved_loops
             self._inline_stack.pop()
